@@ -120,6 +120,16 @@ def matrix(draw, kind, nmin=3, nmax=7):
         for i in range(0, n - 1, 2):
             v = draw(st.integers(1, 4)) / 4.0
             W[i, i], W[i + 1, i + 1] = v, -v
+    if W.dtype.kind == "f" and draw(st.integers(0, 4)) == 0:
+        # non-finite entries (missing values, "infinite length = no connection"): whatever the routine makes of them,
+        # the caller's array stays as it is
+        bad = draw(st.sampled_from([np.nan, np.inf, np.nan, -np.inf]))
+        for _ in range(draw(st.integers(1, 3))):
+            i, j = draw(st.integers(0, n - 1)), draw(st.integers(0, n - 1))
+            if i != j or draw(st.booleans()):
+                W[i, j] = bad
+                if not directed:
+                    W[j, i] = bad
     layout = draw(st.sampled_from(["C", "F", "sliced"]))
     if layout == "F":
         W = np.asfortranarray(W)
@@ -217,6 +227,14 @@ def call_args(draw, name):
             kw["coef_type"] = draw(st.sampled_from(["default", "zhang", "costantini"]))
         if name == "distance_wei_floyd" or name == "rout_efficiency":
             kw["transform"] = draw(st.sampled_from([None, "inv"]))
+        if name == "resource_efficiency_bin" and draw(st.booleans()):
+            # the caller's own distance matrix, with one of the usual conventions on its diagonal
+            with np.errstate(all="ignore"):
+                spl = np.asarray(bct.distance_bin(np.nan_to_num(np.array(W, dtype=float), nan=0.0, posinf=1.0, neginf=1.0)), dtype=float)
+            dg = draw(st.sampled_from(["inf", "zero", "nan", "one"]))
+            if dg != "zero":
+                np.fill_diagonal(spl, {"inf": np.inf, "nan": np.nan, "one": 1.0}[dg])
+            kw["spl"] = spl
         return [W] + list(extra), kw
     return None
 
